@@ -189,6 +189,18 @@ pub mod models {
         n
     }
 
+    /// consecutive pairs of a slice: the loop body sees one segment (start, end) per iteration
+    pub fn pairs_loop(pts: &[(i32, i32)]) -> i32 {
+        let mut n = 0;
+        for (&a, &b) in pts.iter().zip(pts.iter().skip(1)) {
+            if a == b {
+                continue;
+            }
+            n += 1;
+        }
+        n
+    }
+
     /// `once(a).chain(rest.map(f))`: every item is either the once-value (tag true) or f(element) (tag false)
     pub fn chain_loop(first: i32, rest: &[i32]) -> i32 {
         let mut n = 0;
